@@ -480,8 +480,8 @@ ASMJIT_FAVOR_SIZE Error init_func_detail(FuncDetail& func, const FuncSignature& 
 
             if (reg_id != Reg::kIdBad) {
               // X64-ABI doesn't allow vector types (XMM|YMM|ZMM) to be passed via registers, however, VectorCall
-              // was designed for that purpose.
-              if (TypeUtils::is_float(type_id) || is_vector_call) {
+              // was designed for that purpose. An 80-bit float doesn't fit a home slot - it's passed by reference.
+              if ((TypeUtils::is_float(type_id) && size <= 8) || (is_vector_call && !TypeUtils::is_float(type_id))) {
                 RegType reg_type = vec_type_id_to_reg_type(type_id);
                 arg.assign_reg_data(reg_type, reg_id);
                 func.add_used_regs(RegGroup::kVec, Support::bit_mask<RegMask>(reg_id));
@@ -491,7 +491,7 @@ ASMJIT_FAVOR_SIZE Error init_func_detail(FuncDetail& func, const FuncSignature& 
 
             // Passed via stack if the argument is float/double or indirectly. The trap is - if the argument is
             // passed indirectly, the address can be passed via register, if the argument's index has GP one.
-            if (TypeUtils::is_float(type_id)) {
+            if (TypeUtils::is_float(type_id) && size <= 8) {
               arg.assign_stack_offset(int32_t(stack_offset));
             }
             else {
